@@ -1,15 +1,16 @@
 (* C08 - more latency never means more limit (update monotone in the observed RTT). *)
 From Coq Require Import ZArith Reals List.
 From Flocq Require Import Core BinarySingleNaN.
-From GCL Require Import Base.F64 Base.F64Facts Model.Measure Model.Limits Proofs.VegasSafe Proofs.VegasMono.
+From GCL Require Import Base.F64 Base.F64Facts Model.Measure Model.Limits Proofs.VegasSafe Proofs.VegasMono Proofs.VegasQueueMono.
 From GCL Require Proofs.TablesOk.
 
 (* Vegas.  The observed RTT enters the update only through the queue estimate q = ceil(est x (1 - baseline/rtt)) (vegas_queue).
    For every state satisfying the C04 invariant (estimate within [1, M + 1/2], i.e. initial <= max), the same in-flight and drop flag,
    and two queue estimates q1 <= q2 whose samples both update the estimate (neither is a probe, baseline-setting, app-limited,
    nor in the dead band alpha <= q <= beta): the stored estimate after q2 is not above the stored estimate after q1.
-   PARTIAL: (i) monotonicity of q itself in the RTT (float division/ceil) and (ii) the comparison between an updating sample and a
-   dead-band sample (where rounding of the smoothing weights can move the stored value by an ulp) are decided by the twin-run check. *)
+   (i) Monotonicity of q itself in the RTT is C08_vegas_queue_mono below, and C08_vegas_rtt_mono composes the two on vegas_step.
+   PARTIAL: (ii) the comparison between an updating sample and a dead-band sample (where rounding of the smoothing weights can move
+   the stored value by an ulp) is decided by the twin-run check. *)
 Theorem C08_vegas_partial v M s pc em : VInv v M -> sample_ok s ->
   (forall l y, log10i (to_int (v_est v)) (s_lgi s) = Some l -> log10f (v_est v) (s_lgf s) = Some y -> (R y <= 6 * IZR l)%R) ->
   forall q1 q2 o1 o2, (q1 <= q2)%Z ->
@@ -18,6 +19,26 @@ Theorem C08_vegas_partial v M s pc em : VInv v M -> sample_ok s ->
   (R (v_est (o_st o2)) <= R (v_est (o_st o1)))%R.
 Proof. exact (fun HI HS HL q1 q2 o1 o2 => vegas_update_mono v M s pc em HI HS HL q1 q2 o1 o2). Qed.
 Print Assumptions C08_vegas_partial.
+
+(* the queue estimate int(ceil(est x (1 - baseline/rtt))) is monotone in the RTT, for RTTs at or above the baseline: every binary64
+   operation on the way is monotone on the operands' range *)
+Theorem C08_vegas_queue_mono v M rtt1 rtt2 : VInv v M -> fin (v_noload v) = true -> (0 <= R (v_noload v) <= 4611686018427387904)%R ->
+  (1 <= rtt1 <= rtt2)%Z -> (rtt2 <= 2^62)%Z -> (R (v_noload v) <= R (of_int rtt1))%R ->
+  (vegas_queue v rtt1 <= vegas_queue v rtt2)%Z.
+Proof. exact (fun HI F B => vegas_queue_mono v M HI F B rtt1 rtt2). Qed.
+Print Assumptions C08_vegas_queue_mono.
+
+(* Vegas, whole step: same state, two samples that differ only in their RTT (rtt1 <= rtt2, both at or above the baseline), both update the
+   estimate: the higher RTT never yields the higher stored estimate *)
+Theorem C08_vegas_rtt_mono v M s1 s2 o1 o2 : VInv v M -> sample_ok s1 -> sample_ok s2 ->
+  fin (v_noload v) = true -> (0 <= R (v_noload v) <= 4611686018427387904)%R ->
+  s_inflight s2 = s_inflight s1 -> s_drop s2 = s_drop s1 -> s_lgi s2 = s_lgi s1 -> s_lgf s2 = s_lgf s1 ->
+  (1 <= s_rtt s1 <= s_rtt s2)%Z -> (R (v_noload v) <= R (of_int (s_rtt s1)))%R ->
+  (forall l y, log10i (to_int (v_est v)) (s_lgi s1) = Some l -> log10f (v_est v) (s_lgf s1) = Some y -> (R y <= 6 * IZR l)%R) ->
+  vegas_step v s1 = Some o1 -> vegas_step v s2 = Some o2 -> o_notify o1 <> nil -> o_notify o2 <> nil ->
+  (R (v_est (o_st o2)) <= R (v_est (o_st o1)))%R.
+Proof. exact (vegas_rtt_mono v M s1 s2 o1 o2). Qed.
+Print Assumptions C08_vegas_rtt_mono.
 
 Theorem C08_tables_agree : TablesOk.tables_ok = true /\ TablesOk.functions_ok = true /\ TablesOk.log10f_ok = true.
 Proof. exact (conj TablesOk.tables_agree (conj TablesOk.functions_agree TablesOk.log10f_agrees)). Qed.
